@@ -19,6 +19,8 @@ import (
 
 type daemon struct {
 	extraArgs []string // further command-line flags (e.g. -metrics -healthz)
+	ignoreSig string   // "INT" / "TERM": the daemon is started with that signal set to "ignore" (as a background job
+	// of a non-interactive shell is, or the child of a process that ignores it)
 	dir       string
 	sshdPath  string
 	auditPath string
@@ -76,6 +78,10 @@ func (d *daemon) start(trace bool) error {
 		d.strace = filepath.Join(d.dir, "strace.out")
 		args = append([]string{"-f", "-qq", "-s", "65536", "-e", "trace=openat,write,close", "-o", d.strace, bin}, args...)
 		bin = "strace"
+	}
+	if d.ignoreSig != "" && !trace {
+		args = append([]string{"-c", "trap '' " + d.ignoreSig + "; exec \"$0\" \"$@\"", bin}, args...)
+		bin = "/bin/sh"
 	}
 	d.cmd = exec.Command(bin, args...)
 	d.cmd.Env = append(os.Environ(), "NODE_NAME=node-under-test")
